@@ -10,25 +10,35 @@ Program (JSON-able):
    "startfail": [indices of the Thread.start() calls that raise RuntimeError]  (class F),
    "timeout": null  (class N: ThreadPool(..., timeout=None); absent = 60)}
   op = ["start"] | ["stop"] | ["clear"] | ["join"] | ["join_t"] | ["join_0", 0 | 0.0] | ["enq", kind, gate, variant?]
-       | ["wait", k] | ["wait_0", k] | ["open", gate] | ["enq_bad", what]
+       | ["wait", k] | ["wait_0", k, z?] | ["result", k] | ["done", k] | ["open", gate] | ["enq_bad", what]
   kind = "ret" | "raise" | "gwait" (blocks on the gate, then returns) | "gopen" (opens the gate, then returns)
   variant = "<shape>/<value>/<args>" (default "obj/obj/std"):
      shape  obj (callable instance with __name__) | bare (callable instance WITHOUT __name__) | partial (functools.partial)
      value  what the task returns — obj (a unique truthy list) | zero (0) | empty ("") | elist (a unique []) | false | none
             — or raises — obj (ValueError("...")) | noargs (ValueError(), args == ()) | falsy (an exception whose
-            __bool__ is False and __len__ is 0)
+            __bool__ is False and __len__ is 0) | os (an OSError: the class of result()'s own time-out error)
      args   std (one tuple, kw=the tuple) | none (no argument at all) | falsy (0, kw="")
-  ["wait", k] waits (with a timeout) for the k-th future obtained by the same client; ["wait_0", k] is result(0);
+  ["wait", k] waits (with a timeout) for the k-th future obtained by the same client; ["wait_0", k] is result(0) (or
+  result(z): 0.0); ["result", k] is the UNTIMED result() (only generated where the task is certain to be executed);
+  ["done", k] is done() - a poll of the future, at any moment;
   ["join_0", z] is join(z) with a zero time-out; ["enq_bad", what] enqueues a non-callable (5, "x", None, object()).
 
 Action alphabet sent to the model (one token per real step):  <role>:<label>[:<branch>]
   roles   c<i> (client thread i; the harness' final tear-down stop() is issued as c0, the controlling thread), w<j> (j-th worker started)
-  labels  call.start call.stop call.clear call.join call.join_t call.enqueue call.wait:<task id>
+  labels  call.start call.stop call.clear call.join call.join_t call.enqueue call.wait:<task id> call.done:<task id>
           event.is_set[:startfail] event.set event.clear lock.acquire lock.release
           queue.qsize queue.put[:timeout] queue.get[:timeout] queue.get_nowait queue.task_done queue.join
           thread.is_alive thread.join[:timeout] cond.acquire cond.wait[:timeout]
-          fut.wait[:timeout] fut.set task.begin task.end:ok task.end:exc
-  (gate operations belong to the task bodies / the environment and are not sent).
+          fut.wait[:timeout] fut.is_set fut.set task.begin task.end:ok task.end:exc
+  (gate operations belong to the task bodies / the environment and are not sent; neither is `fut.published`, the second
+  scheduling point of the future's Event.set() - flag raised, set() not yet returned: the model's `fut.set` step is the
+  flag AND what follows it up to `queue.task_done`, which is exact as long as nothing the future reports is written
+  after the flag - extracted fact `poolFuturePublishesLast` - and the projection taken between the two is compared).
+
+Observations of a future (C09 "its FutureResult then reports done and yields the very object ... or raises the very
+exception"): done(), result(1.0), result(0), result(0.0), result().  Every one of them is a scheduling point of its own,
+so that it is interleaved with every operation of the worker that completes the task (task.end, fut.set, fut.published,
+queue.task_done, the accounting) - by the random schedulers, and systematically by `observe_sweep`.
 """
 import functools
 import json
@@ -53,7 +63,7 @@ class FalsyError(Exception):
 
 
 VALUE_KINDS = ("obj", "zero", "empty", "elist", "false", "none")
-EXC_KINDS = ("obj", "noargs", "falsy")
+EXC_KINDS = ("obj", "noargs", "falsy", "os")
 SHAPES = ("obj", "bare", "partial")
 ARG_KINDS = ("std", "none", "falsy")
 
@@ -83,6 +93,9 @@ class TaskObj(object):
             self.exc = ValueError()
         elif kind == "raise" and vk == "falsy":
             self.exc = FalsyError()
+        elif kind == "raise" and vk == "os":
+            # the class result() itself raises on a time-out: only the identity tells the task's exception from it
+            self.exc = OSError("exception-of-%d" % tid)
         else:
             self.exc = ValueError("exception-of-%d" % tid)
         if self.argkind == "none":
@@ -104,6 +117,7 @@ class TaskObj(object):
         self.future = None
         self.bad_args = False
         self.accounted = False  # the worker that ran it has called queue.task_done() for it
+        self.reported = None    # step at which a client was first TOLD that the future is done (done() True / result() answered)
 
     def __call__(self, *args, **kwargs):
         r = self.run
@@ -136,7 +150,7 @@ def task_of(method):
 
 class Call(object):
     __slots__ = ("client", "api", "begin", "end", "ret", "arg", "accepted_before", "flag_at_begin", "proj_at_begin",
-                 "enq_during", "overlap_stop", "nops")
+                 "enq_during", "overlap_stop", "nops", "told_before", "obs_end")
 
     def __init__(self, client, api, begin, arg=None):
         self.client = client
@@ -151,6 +165,8 @@ class Call(object):
         self.enq_during = False
         self.overlap_stop = False
         self.nops = 0
+        self.told_before = False  # observation of a future: a client had already been told that it is done
+        self.obs_end = None       # ... and where the worker of that task stood when this observation was answered
 
 
 class Run(object):
@@ -165,6 +181,7 @@ class Run(object):
         self.scripts = program["clients"]
         self.s = sched.Scheduler(chooser, max_steps=max_steps)
         self.s.fail_starts = frozenset(program.get("startfail") or ())
+        self.s.post_set = frozenset(("fut",))  # a reader may run between the future's flag and the writer's next line
         self.timeout_none = "timeout" in program and program["timeout"] is None
         # W: several controlling threads; F: Thread.start() may fail; N: timeout=None.  None of them is judged for
         # termination / progress (the theorems assume one controller, no failing start, a finite time-out).
@@ -193,8 +210,9 @@ class Run(object):
         self.last_core = None
 
     # ---- violations ------------------------------------------------------------------------
-    def violate(self, prop, key, detail):
-        self.violations.append({"property": prop, "key": key, "detail": detail, "step": len(self.s.trace) - 1})
+    def violate(self, prop, key, detail, api=False):
+        # api: the violation was OBSERVED through the public API by a client of the program (reported first)
+        self.violations.append({"property": prop, "key": key, "detail": detail, "step": len(self.s.trace) - 1, "api": api})
 
     # ---- reading the pool --------------------------------------------------------------------
     def attr(self, name):
@@ -247,7 +265,24 @@ class Run(object):
             return lab
         if lab.startswith("gate.") or lab.startswith("task.end"):
             return "task.end"
+        if lab == "fut.published":
+            # inside the future's Event.set(), flag raised: the model's worker has executed `fut.set`
+            return "queue.task_done"
         return lab
+
+    def worker_label_of(self, t):
+        """Next operation of the worker that took task t ("unassigned" / "ended" when there is none)."""
+        if t.taken_by is None:
+            return "unassigned"
+        if t.accounted:
+            return "accounted"  # the worker has reported the task with task_done() and may be busy with another one
+        for th in self.s.threads:
+            if th.role == t.taken_by:
+                if th.dead or th.pending is None:
+                    return "ended"
+                lab = th.pending.label
+                return "task.body" if lab.startswith("gate.") else lab
+        return "unassigned"
 
     def projection(self):
         p = self.pool
@@ -579,33 +614,79 @@ class Run(object):
                         self.violate("C09", "future-identity", "enqueue returned a future that is not the queued one")
                     futs.append(t)
                     self.end_call(i, "fut")
-            elif name in ("wait", "wait_0"):
+            elif name in ("wait", "wait_0", "result", "done"):
                 k = op[1]
                 if k >= len(futs) or futs[k] is None:
                     continue
-                t = futs[k]
-                s.yield_op("call.wait", arg=t.id)
-                self.begin_call(i, name, t.id)
-                try:
-                    v = t.future.result(1.0 if name == "wait" else 0)
-                except OSError as ex:
-                    if ex is t.exc:
-                        ret = "exc"
-                    else:
-                        ret = "to"
-                except Exception as ex:  # noqa: BLE001
-                    ret = "exc"
-                    if self.monitors and ex is not t.exc:
-                        self.violate("C09", "future-unfaithful", "result() of task %d raised a different exception" % t.id)
-                else:
-                    ret = "ok"
-                    if self.monitors and (v is not t.value or t.kind == "raise"):
-                        self.violate("C09", "future-unfaithful", "result() of task %d returned a different object" % t.id)
-                if self.monitors and ret != "to" and not t.ended:
-                    self.violate("C09", "future-early", "result() of task %d returned before the task ended" % t.id)
-                self.end_call(i, ret)
+                self.observe(i, name, futs[k], op[2] if len(op) > 2 else None)
             else:
                 raise ValueError("unknown client operation %r" % (op,))
+
+    # ---- observations of a future through the public API (monitors from the statement of C09) ----------------
+    def observe(self, i, name, t, z=None):
+        """
+        done() / result(1.0) / result(0 | 0.0) / result() on the future of task t.  Monitor: a future that reports done
+        belongs to a task that has ended; result() that answers (no time-out) returns THE object the task returned or
+        raises THE exception it raised; and once any client has been told that the future is done (done() True, or a
+        result() that answered) every later done() is True and every later result(), whatever its time-out, answers at
+        once with that same outcome.
+        """
+        s = self.s
+        mon = self.monitors
+        if name == "done":
+            s.yield_op("call.done", arg=t.id)
+            c = self.begin_call(i, "done", t.id)
+            c.told_before = t.reported is not None
+            b = t.future.done()
+            c.obs_end = self.worker_label_of(t)
+            if mon and b is True and not t.ended:
+                self.violate("C09", "future-early", "done() of task %d is True before the task ended" % t.id, api=True)
+            if mon and b is not True and c.told_before:
+                self.violate("C09", "done-unstable", "done() of task %d answered %r after a client had been told (step %d) "
+                             "that this future is done" % (t.id, b, t.reported), api=True)
+            if b is True and t.reported is None:
+                t.reported = len(s.trace) - 1
+            self.end_call(i, "T" if b is True else "F" if b is False else "?")
+            return
+        s.yield_op("call.wait", arg=t.id)
+        c = self.begin_call(i, name, t.id)
+        c.told_before = t.reported is not None
+        told = " although a client had been told at step %d that this future is done" % t.reported if c.told_before else ""
+        key = "done-then-result" if c.told_before else "future-unfaithful"
+        try:
+            if name == "result":
+                v = t.future.result()
+            else:
+                v = t.future.result(1.0 if name == "wait" else (0 if z is None else z))
+        except OSError as ex:
+            if ex is t.exc:
+                ret = "exc"
+            else:
+                ret = "to"
+                if mon and name == "result":
+                    self.violate("C09", "untimed-result-timeout", "result() of task %d (no time-out) raised the time-out error"
+                                 % t.id, api=True)
+                elif mon and c.told_before:
+                    self.violate("C09", "done-then-timeout", "result(%s) of task %d timed out%s"
+                                 % ("1.0" if name == "wait" else "0", t.id, told), api=True)
+        except Exception as ex:  # noqa: BLE001
+            ret = "exc"
+            if mon and ex is not t.exc:
+                self.violate("C09", key, "result() of task %d raised a different exception (%s)%s"
+                             % (t.id, type(ex).__name__, told), api=True)
+        else:
+            ret = "ok"
+            if mon and t.kind == "raise":
+                self.violate("C09", key, "result() of task %d returned %r instead of raising the exception the task raised%s"
+                             % (t.id, v, told), api=True)
+            elif mon and v is not t.value:
+                self.violate("C09", key, "result() of task %d returned a different object%s" % (t.id, told), api=True)
+        c.obs_end = self.worker_label_of(t)
+        if mon and ret != "to" and not t.ended:
+            self.violate("C09", "future-early", "result() of task %d returned before the task ended" % t.id, api=True)
+        if ret != "to" and t.reported is None:
+            t.reported = len(s.trace) - 1
+        self.end_call(i, ret)
 
     def teardown_main(self, i):
         self.s.yield_op("call.stop")
@@ -726,10 +807,10 @@ class Run(object):
         toks, projs = [], []
         for st in self.s.trace:
             lab = st.label
-            if lab.startswith("gate."):
+            if lab.startswith("gate.") or lab == "fut.published":
                 continue
             tok = "%s:%s" % (st.role, lab)
-            if lab == "call.wait":
+            if lab in ("call.wait", "call.done"):
                 tok += ":%d" % st.arg
             if st.timeout:
                 tok += ":timeout"
@@ -797,6 +878,28 @@ def _timed_join(rng):
 
 def _wait(rng, k):
     return ["wait_0", k] if rng.random() < 0.2 else ["wait", k]
+
+
+def _observe(rng, k, untimed=False):
+    """
+    One or two observations of the k-th future of the client: result(1.0), the polls result(0) / result(0.0) / done(),
+    a poll followed by a read (done-then-result), and - only where the caller knows that the task is certain to be
+    executed (pool started once and never stopped, no gate left to a blocked client) - the untimed result().
+    """
+    r = rng.random()
+    if r < 0.15:
+        return [["wait_0", k] if rng.random() < 0.7 else ["wait_0", k, 0.0]]
+    if r < 0.3:
+        return [["done", k]]
+    if r < 0.42:
+        return [["done", k], ["wait_0", k]]
+    if r < 0.52:
+        return [["done", k], ["wait", k]]
+    if r < 0.6:
+        return [["wait", k], ["done", k]]
+    if r < 0.75 and untimed:
+        return [["result", k]] if rng.random() < 0.6 else [["done", k], ["result", k], ["done", k]]
+    return [["wait", k]]
 
 
 def gen_program(rng, klass=None):
@@ -878,7 +981,7 @@ def gen_program(rng, klass=None):
             for _ in range(rng.randint(0, 2)):
                 r = rng.random()
                 if n and r < 0.5:
-                    scripts[i].append(_wait(rng, rng.randrange(n)))
+                    scripts[i].extend(_observe(rng, rng.randrange(n), untimed=True))
                 elif r < 0.8:
                     scripts[i].append(["join"])
                 else:
@@ -915,7 +1018,8 @@ def gen_program(rng, klass=None):
             elif r < 0.65:
                 sc.append(["enq_bad", rng.choice(["int", "str", "none", "obj"])])
             elif n and r < 0.8:
-                sc.append(_wait(rng, rng.randrange(n)))
+                # (L2: the pool is started by c0 before c0 blocks anywhere and is never stopped: every task is executed)
+                sc.extend(_observe(rng, rng.randrange(n), untimed=(klass == "L2" and (i != 0 or running))))
             elif r < 0.9:
                 sc.append(_timed_join(rng))
             elif klass == "L1" and i != 0:
@@ -933,7 +1037,7 @@ def gen_program(rng, klass=None):
             scripts[0].append(["start"])  # so that every untimed join() of the other clients returns
         if klass == "L2":
             if ["start"] not in scripts[0]:
-                joins = [k for k, o in enumerate(scripts[0]) if o[0] == "join"]
+                joins = [k for k, o in enumerate(scripts[0]) if o[0] in ("join", "result")]
                 scripts[0].insert(rng.randint(0, joins[0] if joins else len(scripts[0])), ["start"])
             if rng.random() < 0.5 and qs == 0:
                 for sc in scripts:
@@ -956,7 +1060,7 @@ def gen_program(rng, klass=None):
                     gates.append(new_gate())
                 sc.append(_enq(rng, gates))
             elif n and r < 0.82:
-                sc.append(_wait(rng, rng.randrange(n)))
+                sc.extend(_observe(rng, rng.randrange(n)))
             elif r < 0.87:
                 sc.append(["join"])
             else:
@@ -1005,12 +1109,14 @@ def gen_stop_enqueue(rng):
         c0.append(_plain(rng))
     n = len([o for o in c0 if o[0] == "enq"])
     c0.append(rng.choice([_wait(rng, n - 1), _timed_join(rng), ["join_0", 0]]))
+    if rng.random() < 0.3:
+        c0.append(["done", rng.randrange(n)])  # before or after the stop: a task that never ran is never reported done
     if rng.random() < 0.2:
         c0.append(["stop"])  # redundant
     scripts = [c0]
     for _ in range(rng.choice([1, 1, 2])):
         sc = [_plain(rng) for _ in range(rng.randint(1, 3))]
-        sc.append(rng.choice([_wait(rng, 0), _timed_join(rng)]))
+        sc.append(rng.choice([_wait(rng, 0), _timed_join(rng), ["done", 0]]))
         scripts.append(sc)
     return {"max": mx, "min": mn, "qsize": qs, "klass": "S", "clients": scripts, "drains": False}
 
@@ -1057,14 +1163,22 @@ def gen_restart(rng, cfg=None):
     n = len([o for o in c0 if o[0] == "enq"])
     r = rng.random()
     if r < 0.5:
-        c0.extend(["wait", k] for k in range(first_after, n))
+        polls = rng.random() < 0.4
+        for k in range(first_after, n):
+            if polls and rng.random() < 0.5:
+                c0.append(["done", k])
+            c0.append(["wait", k])
+            if polls and rng.random() < 0.5:
+                c0.append(["done", k])
     elif r < 0.8:
         c0.append(["join_t"])
     else:
         c0.append(["join"])
     scripts = [c0]
     if rng.random() < 0.25:
-        scripts.append([_plain(rng), ["wait", 0]])
+        # (the timed wait is what makes the program drain: this client's task, accepted at any moment, is waited for)
+        scripts.append([_plain(rng)] + ([["done", 0]] if rng.random() < 0.4 else []) + [["wait", 0]]
+                       + ([["done", 0]] if rng.random() < 0.3 else []))
     scripts.append([["open", 0]])
     return {"max": mx, "min": mn, "qsize": 0, "klass": "R", "clients": scripts, "drains": True}
 
@@ -1136,6 +1250,82 @@ def window_programs():
     P(2, 0, [[["start"], ["enq", "gwait", 0], ["enq", "gopen", 0], ["wait", 0], ["wait", 1], R, ["wait", 2]]])
     P(2, 1, [[["start"], R, R, ["wait", 1], R, ["wait", 2]]])
     return out
+
+
+OBS_SCRIPTS = (
+    [["done", 0], ["wait_0", 0], ["done", 0]],
+    [["wait_0", 0], ["done", 0]],
+    [["result", 0], ["done", 0], ["wait_0", 0, 0.0]],
+    [["wait", 0], ["done", 0]],
+    [["done", 0], ["result", 0]],
+)
+OBS_VARIANTS_QUICK = (("ret", None), ("ret", "obj/none/std"), ("raise", None), ("raise", "bare/falsy/none"),
+                      ("raise", "partial/os/std"))
+OBS_VARIANTS_ALL = tuple([("ret", "%s/%s/std" % (sh, v)) for sh, v in zip(SHAPES * 2, VALUE_KINDS)]
+                         + [("raise", "%s/%s/%s" % (sh, v, a)) for sh, v, a in zip(SHAPES + SHAPES, EXC_KINDS, ARG_KINDS + ARG_KINDS)])
+OBS_POINTS = 16  # operations of the worker between its start and its second wait on the queue (with a margin)
+
+
+def observe_programs(thorough=False):
+    """
+    Tiny programs for `ObserveChooser`: one worker, one task that returns / raises, and a client that observes its
+    future - polls, timed and untimed reads, done-then-result.  (Class L2; drained when the script has a blocking read.)
+    """
+    out = []
+    cfgs = [(1, 1)] if not thorough else [(1, 1), (1, 0), (2, 0)]
+    for mx, mn in cfgs:
+        for kind, variant in (OBS_VARIANTS_ALL if thorough else OBS_VARIANTS_QUICK):
+            for sc in OBS_SCRIPTS:
+                enq = ["enq", kind, None] + ([variant] if variant else [])
+                # (a script that only polls may end before the task has begun: the tear-down then drops it, legitimately)
+                out.append({"max": mx, "min": mn, "qsize": 0, "klass": "L2", "drains": any(o[0] in ("result", "wait") for o in sc),
+                            "clients": [[["start"], enq] + [list(o) for o in sc]]})
+    return out
+
+
+class ObserveChooser(object):
+    """
+    Places a client's observations at a chosen point of the worker's work: the client runs up to its first observation
+    (`call.done` / `call.wait`); then the other threads execute `point` operations; from then on the client runs whenever
+    it is enabled (a blocked read is resumed at the very first scheduling point at which the future's flag is up), the
+    others only when it is not.  `point` = 0 .. OBS_POINTS puts the observations before / after each operation of the
+    worker: queue.get, the accounting, task.begin, task.end, fut.set, fut.published, queue.task_done, ...
+    """
+
+    def __init__(self, point, client="c0"):
+        self.point = point
+        self.client = client
+        self.phase = 0
+        self.others = 0
+
+    def choose(self, s, en, tmo):
+        c = next((t for t in en if t.role == self.client), None)
+        others = [t for t in en if t.role != self.client]
+        if self.phase == 0:
+            if c is not None and c.pending.label not in ("call.done", "call.wait"):
+                return c
+            if c is None:
+                return others[0]
+            self.phase = 1
+        if self.phase == 1:
+            if self.others < self.point and others:
+                self.others += 1
+                return others[0]
+            self.phase = 2
+        return c if c is not None else en[0]
+
+
+def observe_sweep(ck, ctx):
+    """Every observation script x every outcome kind x every point of the worker's sequence (part of EVERY run)."""
+    n = 0
+    for program in observe_programs(ctx.thorough):
+        for point in range(OBS_POINTS + 1):
+            if ctx.violations and ck.enough():
+                return n
+            r = run_program(program, ObserveChooser(point))
+            ck.record(program, r, "observe", lockstep=(n % 3 == 0))
+            n += 1
+    return n
 
 
 def lazy_roles(program):
@@ -1299,6 +1489,8 @@ def features(program):
 
 
 SEARCH_SECONDS = 60.0
+# the worker's completion sequence (its NEXT operation when a client's observation of the task's future is answered)
+OBS_WINDOW = ("task.begin", "task.body", "task.end:ok", "task.end:exc", "fut.set", "fut.published", "queue.task_done")
 
 
 class Checker(object):
@@ -1343,7 +1535,8 @@ class Checker(object):
                                   r.status, min(sw // 8, 6)),
                   kind="%s/%s/%s" % (program["klass"], chooser_name, r.status))
         self.count_rare(program, r)
-        for v in r.violations:
+        # violations observed by a client through the public API are reported before the ones read from the private state
+        for v in sorted(r.violations, key=lambda x: 0 if x.get("api") else 1):
             if v["property"] != self.pid:
                 self.other_hits += 1
                 continue
@@ -1378,6 +1571,13 @@ class Checker(object):
             if tok in self.RARE:
                 h["rare/" + tok] += 1
         for c in r.calls:
+            if c.api in ("done", "wait", "wait_0", "result") and c.end is not None:
+                # observations of a future, by where the worker of the task stood when the answer was given
+                at = c.obs_end if c.obs_end in OBS_WINDOW else "elsewhere"
+                h["observe/%s=%s@%s" % ({"wait": "result(1.0)", "wait_0": "result(0)", "result": "result()", "done": "done()"}[c.api],
+                                        c.ret, at)] += 1
+                if c.told_before:
+                    h["observe/after-done-was-reported:%s" % c.api] += 1
             if c.api in ("join_0", "wait_0"):
                 h["rare/call.%s" % c.api] += 1
             if c.api == "join" and c.client != 0:
@@ -1389,6 +1589,8 @@ class Checker(object):
                 h["rare/task-without-__name__:" + ("raises" if t.kind == "raise" else "returns")] += 1
             if t.kind != "raise" and t.value is not None and not t.value and t.ended:
                 h["rare/falsy-result"] += 1
+            if t.kind == "raise" and isinstance(t.exc, OSError) and t.ended:
+                h["rare/task-raises-OSError"] += 1
         if program.get("timeout", 60) is None:
             h["rare/pool-with-timeout-None"] += 1
 
@@ -1462,6 +1664,9 @@ def check(ctx, pid, mix, quick_runs, thorough_runs, special=None):
             if ctx.violations or ck.out_of_time():
                 break
     ck.lockstep()
+    # the failing input that is written to the replay file is the first one: prefer an execution in which a client of the
+    # program SAW the violation through the public API to one in which the monitor read it from the pool's private state
+    ctx.violations.sort(key=lambda v: 0 if isinstance(v.get("case"), dict) and (v["case"].get("violation") or {}).get("api") else 1)
     ctx.extra["scheduler_steps"] = ctx.extra.get("scheduler_steps", 0) + ck.steps
     ctx.extra["monitor_hits_for_other_properties"] = ck.other_hits
     ctx.extra["violation_keys"] = dict(ck.seen_keys)
@@ -1472,8 +1677,10 @@ def check(ctx, pid, mix, quick_runs, thorough_runs, special=None):
                 "enqueue, S stop then enqueue without restart, W anything on any thread, F some Thread.start() calls fail, "
                 "N pool built with timeout=None) x pool sizes max 1..3, min 0..max, queue bound 0/1 x tasks that are named "
                 "callables / bare callable instances / functools.partial objects returning truthy, falsy-but-not-None or None "
-                "objects or raising (empty args, falsy exception objects), with tuple / no / falsy arguments; join(1.0), "
-                "join(0), join(0.0), result(1.0), result(0), enqueue(non-callable) x "
+                "objects or raising (empty args, falsy exception objects, OSError), with tuple / no / falsy arguments; join(1.0), "
+                "join(0), join(0.0), result(1.0), result(0), result(0.0), result(), done(), done-then-result, enqueue(non-callable); "
+                "the future's Event.set() is two scheduling points (fut.set, fut.published) and in every run a client's "
+                "observations are placed before/after every operation of the completing worker (observe_sweep) x "
                 "schedules (uniform, sticky, PCT depth 1-3, gate opener kept back for class R; in every run: DFS over the choices "
                 "at blocking points of 5 fixed quiescence / failing-start / nameless-task programs and 15 fixed class R programs, "
                 "exhaustive single-pre-emption DFS of 2 tiny enqueue-after-completion programs; thorough: bounded-preemption DFS "
@@ -1505,7 +1712,9 @@ def directed(ck, ctx):
       1. restart_programs(): DFS without pre-emption (all choices at blocking points); thorough: also one pre-emption;
       2. window_programs(): the first two exhaustively for one pre-emption at every step; thorough: all five, and two
          pre-emptions for the first two;
-      3. random class R programs under random schedules, the gate opener kept back in 5 runs out of 6.
+      3. random class R programs under random schedules, the gate opener kept back in 5 runs out of 6;
+      0. (first) observe_sweep(): a client's done() / result(0) / result(1.0) / result() placed before and after every
+         operation of the worker that runs a returning / raising task (ObserveChooser), `fut.published` included.
     """
     def explore(program, max_preempt, max_runs, lazy, every):
         k = 0
@@ -1525,6 +1734,7 @@ def directed(ck, ctx):
 
     nruns = 0
     deep = ctx.thorough  # thorough tier or search stage
+    nruns += observe_sweep(ck, ctx)
     for k, program in enumerate(quiescent_programs()):
         if ctx.violations:
             break
